@@ -500,8 +500,7 @@ def _loop(ev, cx, lid, kind, base, stages, body_fn, iter_ty):
         p.narrow.update(it.path.narrow)
         results.append((it.end, dict(it.env) if it.end == "break" else it.env, p, it.ret, idx))
     env_after = dict(env)
-    for k in L.carried:
-        env_after[k] = ("lexit", lid, k)
+    L.set_exit(env_after)
     L.iters.append(Iter(Path(), "done", dict((k, ("lvar", lid, k)) for k in L.carried)))
     p = cx.path.copy()
     p.events.append(("loop", L, len(L.iters) - 1))
@@ -868,3 +867,37 @@ def it_try_for_each(ev, cx, args):
     res = model_loop(ev, cx, "try_for_each", recv, lambda x, env, path, L: body(x, env, path, L) or [("diverge", env, path, None)],
                      lambda env, L: ("agg", "adt", RESULT + "::Ok", (UNIT,), ("0",)))
     return res
+
+
+# ---------------------------------------------------------------------------- vec![a, b, ..]
+
+def _array_behind(ev, cx, boxed):
+    """The array a freshly made box holds: `Box::new([..])`, or an uninitialised box the array was then written into."""
+    t = boxed
+    while isinstance(t, tuple) and t and t[0] == "cast":
+        t = t[2]
+    if isinstance(t, tuple) and t and t[0] == "agg" and t[1] == "array":
+        return t
+    if isinstance(t, tuple) and t and t[0] == "call":
+        c = ev.callee(t[1])
+        if c is not None and not c.local and c.name == "new" and "Box" in (c.path or "") and len(t[2]) == 1:
+            return _array_behind(ev, cx, t[2][0])
+        mem = cx.env.get("mem") or {}
+        for k, v in mem.items():
+            r = k
+            while isinstance(r, tuple) and r and r[0] in ("field", "proj", "cast", "variant"):
+                r = r[2] if r[0] == "cast" else r[1]
+            if r == t and isinstance(v, tuple) and v and v[0] == "agg" and v[1] == "array":
+                return v
+    return None
+
+
+@model("box_assume_init_into_vec_unsafe", "alloc")
+def vec_literal(ev, cx, args):
+    arr = _array_behind(ev, cx, args[0]) if args else None
+    if arr is None:
+        return None
+    return [("val", cx.env, cx.path, ("agg", "veclit", "veclit", arr[3], ()))]
+
+
+model("into_vec", "alloc")(vec_literal)
